@@ -329,6 +329,12 @@ def part_d(level):
     ]
     for i, f in enumerate(forms):
         yield (("D-scope", i), outer % f)
+    # case: the key is compared with eqv?, also when a clause has a single datum and when the key is a number that lives in the heap
+    keys = ["1.5", "18446744073709551616", "1/3", "2", "-4611686018427387905", "#\\a", "'sym", "\"s\"", "'()", "(+ 1 0.5)", "(* 4294967296 4294967296)", "(/ 2 6)"]
+    for k in keys:
+        yield (("D-case", k), "(list (case %s ((1.5) 'flo) ((18446744073709551616) 'big) ((1/3) 'ratio) ((2) 'two) ((-4611686018427387905) 'negbig) ((#\\a) 'char) ((sym) 'symbol) ((\"s\") 'string) ((()) 'nil) (else 'other)) "
+               "(case %s ((0 1.5 7) 'flo) ((18446744073709551616 3) 'big) ((1/3 1/2) 'ratio) ((2 4) 'two) (else => (lambda (x) (list 'else x)))) "
+               "(case %s ((1.5) => (lambda (x) (list 'f x))) ((2) => (lambda (x) (list 't x))) (else 'other)))" % (k, k, k))
     # forward references between internal definitions: the closure that refers to a later definition sits in every kind of <init>
     inits = {
         "lambda": "(define (get) (list k0 (later)))",
